@@ -44,7 +44,13 @@ def decimal_literal(v):
 
 def string_literal(v):
     """string value -> STRING lexeme; only for values expressible in the language's escapes"""
-    if '\\' in v or '\r' in v:
+    if '\\' in v:
+        # raw literal: no escape processing, value is the text between the quotes
+        if '\n' in v or '\r' in v or v.endswith('\\') or ('"' in v and "'" in v):
+            raise ValueError('string not expressible')
+        q = '"' if '"' not in v else "'"
+        return 'r' + q + v + q
+    if '\r' in v:
         raise ValueError('string not expressible')
     body = v.replace('\n', '\\n').replace('\t', '\\t')
     if '"' not in body:
